@@ -161,6 +161,7 @@ int run_main(int argc, char** argv, const Config& cfg, Body body, Enumerator enu
     Outcome o;
     run_body(body, tape.data(), tape.size(), o);
     printf("CASE %s\n", o.desc.str().c_str());
+    if (o.knownFail) { printf("KNOWNFAIL finding=%s sig=%s msg=%s\n", o.knownId.c_str(), o.sig.c_str(), o.msg.c_str()); return 4; }
     if (o.excluded) { printf("EXCLUDED rule=%s\n", o.excluded_rule.c_str()); return 0; }
     if (!o.ok) { printf("FAIL sig=%s msg=%s\n", o.sig.c_str(), o.msg.c_str()); return 1; }
     printf("PASS nontrivial=%d\n", int(o.nontrivial));
